@@ -19,12 +19,16 @@ import sexp
 import gtwrap.interface_parser as parser
 import gtwrap.template_instantiator as inst
 
-QUIRK_BITS = ['q_cap_all', 'q_scoped_substring', 'q_typedef_stale']
+QUIRK_BITS = ['q_cap_all', 'q_scoped_substring', 'q_typedef_stale', 'q_first_level_only']
+SPEC = '0' * len(QUIRK_BITS)
 WITNESS = {
     'q_cap_all': ('template<T={dd}> class C {};', lambda m: m.content[0].name == 'CDD'),
     'q_scoped_substring': ('template<T={A}> class C { T::Type f(); };',
                            lambda m: m.content[0].methods[0].return_type.to_cpp() == 'A::Aype'),
     'q_typedef_stale': ('namespace a { template<T> class Foo {}; } typedef a::Foo<int> FooInt;', None),
+    'q_first_level_only': ('template<T={A}> class C { void f(std::vector<std::vector<T>> x, vector<This> v); };',
+                           lambda m: [a.ctype.to_cpp() for a in m.content[0].methods[0].args.list()]
+                           == ['std::vector<std::vector<T>>', 'vector<This>']),
 }
 
 
@@ -115,7 +119,7 @@ def compare_all(rep, texts, qbits, project, prop_label):
             d = r[1]
             ans_tree = model.ask('inst', [qbits, d])
             ans_proj = model.ask('instproj', [qbits, d])
-            spec_proj = model.ask('instproj', ['000', d])
+            spec_proj = model.ask('instproj', [SPEC, d])
             key = common.sha(sexp.dumps(d))
             nontrivial = '"class"' in sexp.dumps(d) or '"fun"' in sexp.dumps(d)
             rep.hit(key, nontrivial)
@@ -159,7 +163,7 @@ def compare_all(rep, texts, qbits, project, prop_label):
 
 def yield_known(rep, model, d, project, qbits, impl_proj):
     """name the known-finding classes active on this input (a quirk bit alone changes the projection)"""
-    base = model.ask('instproj', ['000', d])
+    base = model.ask('instproj', [SPEC, d])
     for i, name in enumerate(QUIRK_BITS):
         if qbits[i] != '1':
             continue
